@@ -322,20 +322,65 @@ type textEnumP interface {
 	UnmarshalText([]byte) error
 }
 
-// textOK: a non-zero constant is rendered as its name, and the name parses back to the constant
-func textOK(v textEnum, p textEnumP, name string) string {
-	if reflect.ValueOf(v).Uint() == 0 {
+// textOK: text form of a constant of generated code (C19 on generated code). An ordinary enum: the constant is rendered as its
+// XML name and the name parses back to it. A bitmask enum: the constant, and its union with every other entry and with all of
+// them, is rendered as the names of exactly the entries it contains, joined by " | ", and that text parses back to the value.
+func textOK(v textEnum, p textEnumP, name string, bitmask bool, names []string, vals []uint64) string {
+	x := reflect.ValueOf(v).Uint()
+	if x == 0 {
 		return "T" // zero of a bitmask enum is rendered as 0: not judged here
 	}
-	b, err := v.MarshalText()
-	if err != nil || string(b) != name {
-		return "F(marshal=" + string(b) + ")"
+	if !bitmask {
+		b, err := v.MarshalText()
+		if err != nil || string(b) != name {
+			return "F(marshal=" + string(b) + ")"
+		}
+		if err := p.UnmarshalText([]byte(name)); err != nil {
+			return "F(unmarshal-error)"
+		}
+		if reflect.ValueOf(p).Elem().Uint() != x {
+			return "F(unmarshal-value)"
+		}
+		return "T"
 	}
-	if err := p.UnmarshalText([]byte(name)); err != nil {
-		return "F(unmarshal-error)"
+	all := x
+	cands := []uint64{x}
+	for _, o := range vals {
+		cands = append(cands, x|o)
+		all |= o
 	}
-	if reflect.ValueOf(p).Elem().Uint() != reflect.ValueOf(v).Uint() {
-		return "F(unmarshal-value)"
+	cands = append(cands, all)
+	for _, c := range cands {
+		q := reflect.New(reflect.TypeOf(v)).Elem()
+		q.SetUint(c)
+		b, err := q.Interface().(textEnum).MarshalText()
+		if err != nil {
+			return "F(marshal-error)"
+		}
+		want := map[string]bool{}
+		for i, o := range vals {
+			if o != 0 && c&o == o {
+				want[names[i]] = true
+			}
+		}
+		got := map[string]bool{}
+		for _, part := range strings.Split(string(b), " | ") {
+			got[part] = true
+		}
+		if len(got) != len(want) {
+			return fmt.Sprintf("F(marshal %%d=%%s)", c, b)
+		}
+		for k := range want {
+			if !got[k] {
+				return fmt.Sprintf("F(marshal %%d=%%s)", c, b)
+			}
+		}
+		if err := p.UnmarshalText(b); err != nil {
+			return fmt.Sprintf("F(unmarshal-error %%s)", b)
+		}
+		if reflect.ValueOf(p).Elem().Uint() != c {
+			return fmt.Sprintf("F(unmarshal %%s=%%d)", b, reflect.ValueOf(p).Elem().Uint())
+		}
 	}
 	return "T"
 }
@@ -344,6 +389,19 @@ func main() {
 %s
 }
 `
+
+// bitmaskOf: enum name -> declared with bitmask="true" in some file of the set
+func bitmaskOf(fs []xFile) map[string]bool {
+	out := map[string]bool{}
+	for _, f := range fs {
+		for _, e := range f.enums {
+			if e.bitmask {
+				out[e.name] = true
+			}
+		}
+	}
+	return out
+}
 
 type genJob struct {
 	op   string
@@ -392,7 +450,16 @@ func runGenBatch(jobs []*genJob) {
 			ee := entryEnum(j.fs)
 			for _, e := range allEntries(j.fs) {
 				// value of the constant, and whether its text form is its XML name and parses back to it (C19 on generated code)
-				ents = append(ents, fmt.Sprintf("fmt.Sprintf(\"%s=%%d:%%s\", uint64(%s.%s), textOK(%s.%s, new(%s.%s), %q))", e, alias, e, alias, e, alias, ee[e], e))
+				// all the entries of the enum this entry belongs to (merged over the files that extend it)
+				var ns, vs []string
+				for _, o := range allEntries(j.fs) {
+					if ee[o] == ee[e] {
+						ns = append(ns, fmt.Sprintf("%q", o))
+						vs = append(vs, fmt.Sprintf("uint64(%s.%s)", alias, o))
+					}
+				}
+				ents = append(ents, fmt.Sprintf("fmt.Sprintf(\"%s=%%d:%%s\", uint64(%s.%s), textOK(%s.%s, new(%s.%s), %q, %v, []string{%s}, []uint64{%s}))",
+					e, alias, e, alias, e, alias, ee[e], e, bitmaskOf(j.fs)[ee[e]], strings.Join(ns, ", "), strings.Join(vs, ", ")))
 			}
 			es := "\"\""
 			if len(ents) > 0 {
@@ -400,7 +467,7 @@ func runGenBatch(jobs []*genJob) {
 			}
 			body = append(body, fmt.Sprintf("\tfmt.Println(\"#%d\", describe(%s.Dialect)+\";E:\"+%s)", j.k, alias, es))
 		}
-		os.WriteFile(filepath.Join(mod, "main.go"), []byte(fmt.Sprintf(probeMain, strings.Join(imports, "\n"), strings.Join(body, "\n"))), 0o644) //nolint
+		os.WriteFile(filepath.Join(mod, "main.go"), []byte(fmt.Sprintf(probeMain, strings.Join(imports, "\n"), strings.Join(body, "\n"))), 0o644)                                                        //nolint
 		os.WriteFile(filepath.Join(mod, "go.mod"), []byte("module gen18\n\ngo 1.23\n\nrequire github.com/bluenviron/gomavlib/v3 v3.0.0\n\nreplace github.com/bluenviron/gomavlib/v3 => /repo\n"), 0o644) //nolint
 		sum, _ := os.ReadFile("/repo/go.sum")
 		os.WriteFile(filepath.Join(mod, "go.sum"), sum, 0o644) //nolint
@@ -586,7 +653,7 @@ func genDialectSet(r *rngT, serial int) []xFile {
 			fs[i].name = "Solo_Dialect"
 		}
 		if r.Intn(3) != 0 {
-			fs[i].version = fmt.Sprint(1 + r.Intn(9))
+			fs[i].version = fmt.Sprint(r.Intn(10)) // an explicit 0 is a version too (it overrides what the includes say)
 		}
 	}
 	// include graph: a DAG over file indexes (i includes j only if j > i), every file reachable from the root; diamonds welcome
@@ -600,23 +667,66 @@ func genDialectSet(r *rngT, serial int) []xFile {
 			}
 		}
 	}
+	// files reachable through includes (an enum can only be extended by a file that, directly or not, includes its definition)
+	idxOf := map[string]int{}
+	for i := range fs {
+		idxOf[fs[i].name] = i
+	}
+	reach := make([]map[int]bool, nf)
+	for i := nf - 1; i >= 0; i-- {
+		reach[i] = map[int]bool{}
+		for _, inc := range fs[i].includes {
+			j := idxOf[inc]
+			reach[i][j] = true
+			for k := range reach[j] {
+				reach[i][k] = true
+			}
+		}
+	}
+	enumFile := map[string]int{}
 	// enums are defined bottom-up so that fields can refer to enums of included files
 	for i := nf - 1; i >= 0; i-- {
 		for e := 0; e < r.Intn(3); e++ {
 			en := xEnum{name: fmt.Sprintf("ENUM_%d_%c", serial%1000, 'A'+len(enumNames)), bitmask: r.Intn(3) == 0}
+			var nums []uint64
 			for k := 0; k < 1+r.Intn(5); k++ {
-				vs, _ := randEnumValue(r, en.bitmask, k)
+				vs, v := randEnumValue(r, en.bitmask, k)
 				nm := fmt.Sprintf("%s_E%d", en.name, k)
 				entryNames[nm] = true
 				en.entries = append(en.entries, xEntry{nm, vs})
+				nums = append(nums, v)
+			}
+			if en.bitmask && len(nums) >= 2 && r.bool() {
+				// entries that name a group of flags (MASK = LOW | HIGH), declared after or before the flags they contain, and groups
+				// that overlap each other: a value containing a group is rendered with the group's name and the names of its flags
+				var groups []xEntry
+				groups = append(groups, xEntry{en.name + "_G0", fmt.Sprint(nums[0] | nums[1])})
+				if len(nums) >= 3 {
+					groups = append(groups, xEntry{en.name + "_G1", fmt.Sprintf("0x%X", nums[1]|nums[2])})
+				}
+				for _, g := range groups {
+					entryNames[g.name] = true
+				}
+				if r.bool() {
+					en.entries = append(en.entries, groups...)
+				} else {
+					en.entries = append(groups, en.entries...)
+				}
 			}
 			fs[i].enums = append(fs[i].enums, en)
 			enumNames = append(enumNames, en.name)
 			enumIsBitmask[en.name] = en.bitmask
+			enumFile[en.name] = i
 		}
 		// an enum extended by a later-processed (including) file: same name, further entries
-		if i < nf-1 && len(enumNames) > 0 && r.Intn(4) == 0 {
-			base := enumNames[r.Intn(len(enumNames))]
+		var extendable []string
+		for _, en := range enumNames {
+			if reach[i][enumFile[en]] {
+				extendable = append(extendable, en)
+			}
+		}
+		if len(extendable) > 0 && r.Intn(3) == 0 {
+			base := extendable[r.Intn(len(extendable))]
 			en := xEnum{name: base}
 			for k := 0; k < 1+r.Intn(2); k++ {
 				nm := fmt.Sprintf("%s_X%d_%d", base, i, k)
@@ -721,6 +831,43 @@ func genC18(r *rngT, n int, tier string) {
 			}
 			jobs = append(jobs, &genJob{op: "gencheck " + encSet(fs), fs: fs, k: k})
 			stat(fmt.Sprintf("c18-files-%d", len(fs)))
+			k++
+		}
+		runGenBatch(jobs)
+		for _, j := range jobs {
+			emit(j.op, j.impl)
+			stat("op:gencheck")
+		}
+		out.Flush()
+	}
+}
+
+// genC19gen: C19 on GENERATED code - dialect sets chosen for their enums (several enums, bitmask enums with groups of flags,
+// large values, enums extended by an including file), converted, compiled and probed (textOK) like the C18 sets.
+func genC19gen(r *rngT, n int, tier string) {
+	batch := 20
+	k := 0
+	for k < n {
+		var jobs []*genJob
+		for b := 0; b < batch && k < n; b++ {
+			var fs []xFile
+			for try := 0; try < 200; try++ {
+				fs = genDialectSet(r, 5000+k)
+				ne, nb := 0, 0
+				for _, f := range fs {
+					for _, e := range f.enums {
+						ne++
+						if e.bitmask && len(e.entries) >= 3 {
+							nb++
+						}
+					}
+				}
+				if ne >= 2 && (nb >= 1 || try > 100) {
+					break
+				}
+			}
+			jobs = append(jobs, &genJob{op: "gencheck " + encSet(fs), fs: fs, k: k})
+			stat("c19-generated-set")
 			k++
 		}
 		runGenBatch(jobs)
